@@ -1067,7 +1067,7 @@ pub fn execute(plan: &C17Plan) -> Outcome<C17Plan> {
         let mut f = Fnv::new();
         if let Ok(g) = app.try_lock() {
             f.u64(g.items.len() as u64);
-            f.u64(g.state.selected().map(|i| i as u64 + 1).unwrap_or(0));
+            f.u64(g.state.selected().map(|i| (i as u64).wrapping_add(1)).unwrap_or(0));
             let fl = flags_of(&g);
             f.u64(fl.sort as u64 * 8 + fl.asc as u64 * 4 + fl.search as u64 * 2 + fl.quit as u64);
             f.bytes(fl.query.as_bytes());
@@ -1343,7 +1343,7 @@ fn seq_dfs(g: &mut tokio::sync::MutexGuard<'_, Jet1090>, cx: &mut SeqCtx, snap: 
         {
             let mut f = Fnv::new();
             f.u64(g.items.len() as u64);
-            f.u64(g.state.selected().map(|i| i as u64 + 1).unwrap_or(0));
+            f.u64(g.state.selected().map(|i| (i as u64).wrapping_add(1)).unwrap_or(0));
             let fl = flags_of(g);
             f.u64(fl.sort as u64 * 8 + fl.asc as u64 * 4 + fl.search as u64 * 2 + fl.quit as u64);
             f.bytes(fl.query.as_bytes());
